@@ -1,6 +1,7 @@
 /- C15 — the encoder meets the independent RFC readers of `C15Spec.lean`. Core Lean only. -/
 import RtcModel.C15Spec
 import RtcModel.Lemmas.C15Rtcp
+import RtcModel.Lemmas.C15Rtp
 
 namespace RtcModel.C15.Rfc
 open RtcModel.C15 RtcModel.Generated
@@ -737,5 +738,152 @@ theorem rfc_twcc (s m : UInt32) (b c : UInt16) (r : UInt32) (f : UInt8) (pl : By
         rw [h3, f1, f2, f3, f4, f5, f6, f7]
         congr 2
         rw [List.take_append_of_le_length (by omega), List.take_of_length_le (by omega)]
+
+/-! ### RTP -/
+
+theorem rfc_rtp (p : Packet) (w : p.hdr.WF) (bs : Bytes) (h : marshalPacket p = .ok bs) : readRtp bs = some p := by
+  obtain ⟨hd, payload, pad⟩ := p
+  obtain ⟨m, pt, seq, ts, ssrc, csrcs, ext⟩ := hd
+  have hpt : pt.toNat < 128 := w.pt
+  have hcs : csrcs.length ≤ 15 := w.csrcs
+  simp only [marshalPacket, validate_ok_of_wf w, Except.ok.injEq] at h
+  subst h
+  simp only [writeHeader, c15CsrcMask_eq, c15PtMask_eq]
+  generalize hb0 : 128 + (if (pad != 0) = true then 32 else 0) + (if ext.isSome = true then 16 else 0) + csrcs.length % (15 + 1) = b0
+  generalize hb1 : pt.toNat % (127 + 1) + (if m = true then 128 else 0) = b1
+  have hb0l : b0 < 256 := by rw [← hb0]; split <;> split <;> omega
+  have hb1l : b1 < 256 := by rw [← hb1]; split <;> omega
+  -- the datagram: 12 fixed octets, CSRCs, extension block, payload and padding
+  generalize hP : (u8 b0 :: u8 b1 :: (be16 seq ++ be32 ts ++ be32 ssrc) : Bytes) = P12
+  have hPl : P12.length = 12 := by rw [← hP]; simp
+  generalize hT : payload ++ List.replicate pad.toNat pad = T
+  have hbs : (u8 b0 :: u8 b1 :: (be16 seq ++ be32 ts ++ be32 ssrc ++ be32s csrcs ++ extBytes ext)) ++ payload ++
+      List.replicate pad.toNat pad = P12 ++ (be32s csrcs ++ (extBytes ext ++ T)) := by
+    rw [← hP, ← hT]; simp [List.append_assoc]
+  rw [hbs]
+  generalize hbsd : P12 ++ (be32s csrcs ++ (extBytes ext ++ T)) = bs
+  have f0 : o8 bs 0 = b0 := by rw [← hbsd, ← hP]; simp [o8]; omega
+  have f1 : o8 bs 1 = b1 := by rw [← hbsd, ← hP]; simp [o8]; omega
+  have fseq : w16 bs 2 = seq := by
+    rw [← hbsd, ← hP]
+    have := w16_shift (u8 b0 :: u8 b1 :: (be16 seq ++ be32 ts ++ be32 ssrc) ++ (be32s csrcs ++ (extBytes ext ++ T))) 2 0
+    simp only [Nat.add_zero] at this
+    rw [this]; simp only [List.cons_append, List.drop_succ_cons, List.drop_zero, List.append_assoc]; exact w16_be16 seq _
+  have fts : w32 bs 4 = ts := by
+    rw [← hbsd, ← hP]
+    have := w32_shift (u8 b0 :: u8 b1 :: (be16 seq ++ be32 ts ++ be32 ssrc) ++ (be32s csrcs ++ (extBytes ext ++ T))) 4 0
+    simp only [Nat.add_zero] at this
+    rw [this]; simp only [be16, List.cons_append, List.nil_append, List.drop_succ_cons, List.drop_zero, List.append_assoc]
+    exact w32_be32 ts _
+  have fss : w32 bs 8 = ssrc := by
+    rw [← hbsd, ← hP]
+    have := w32_shift (u8 b0 :: u8 b1 :: (be16 seq ++ be32 ts ++ be32 ssrc) ++ (be32s csrcs ++ (extBytes ext ++ T))) 4 4
+    rw [show (8 : Nat) = 4 + 4 from rfl, this]
+    simp only [be16, List.cons_append, List.nil_append, List.drop_succ_cons, List.drop_zero, List.append_assoc]
+    have := w32_skip4 ts (be32 ssrc ++ (be32s csrcs ++ (extBytes ext ++ T))) 0
+    simp only [Nat.zero_add] at this
+    rw [this, w32_be32]
+  have fcs : ssrcs bs 12 csrcs.length = csrcs := by rw [← hbsd]; exact ssrcs_be32s_tail P12 csrcs _ 12 hPl
+  have hdropE : bs.drop (12 + 4 * csrcs.length) = extBytes ext ++ T := by
+    rw [← hbsd, show 12 + 4 * csrcs.length = P12.length + (be32s csrcs).length by simp [hPl],
+      ← List.append_assoc, List.drop_left' (by simp)]
+  have hlen : bs.length = 12 + 4 * csrcs.length + (extBytes ext).length + T.length := by
+    rw [← hbsd]; simp only [List.length_append, hPl, be32s_length]; omega
+  have hTl : T.length = payload.length + pad.toNat := by rw [← hT]; simp
+  have hcc : b0 % 16 = csrcs.length := by rw [← hb0]; split <;> split <;> omega
+  have hx : (b0 / 16 % 2 = 1) = (ext.isSome = true) := by
+    rw [← hb0]; cases ext.isSome <;> simp <;> split <;> omega
+  have hp : (b0 / 32 % 2 = 1) = ((pad != 0) = true) := by
+    rw [← hb0]; cases (pad != 0) <;> simp <;> split <;> omega
+  have hv : b0 / 64 = 2 := by rw [← hb0]; split <;> split <;> omega
+  have hm : (b1 / 128 = 1) = (m = true) := by rw [← hb1]; cases m <;> simp <;> omega
+  have hpt' : UInt8.ofNat (b1 % 128) = pt := by
+    have : b1 % 128 = pt.toNat := by rw [← hb1]; split <;> omega
+    rw [this]; simp
+  unfold readRtp
+  simp only [f0, f1, hcc, hx, hp, hv, hm, fseq, fts, fss, fcs]
+  have hpadlast : pad ≠ 0 → o8 bs (bs.length - 1) = pad.toNat := by
+    intro hne
+    have hpos : 0 < pad.toNat := by
+      rcases Nat.eq_zero_or_pos pad.toNat with h0 | h0
+      · exact absurd (UInt8.toNat_inj.mp (by simpa using h0)) hne
+      · exact h0
+    have h1 := o8_shift bs (bs.length - 1) 0
+    simp only [Nat.add_zero] at h1
+    rw [h1, ← hbsd, ← hT]
+    obtain ⟨k, hk⟩ : ∃ k, pad.toNat = k + 1 := ⟨pad.toNat - 1, by omega⟩
+    rw [hk, List.replicate_succ']
+    have hh : P12 ++ (be32s csrcs ++ (extBytes ext ++ (payload ++ (List.replicate k pad ++ [pad])))) =
+        (P12 ++ (be32s csrcs ++ (extBytes ext ++ (payload ++ List.replicate k pad)))) ++ [pad] := by simp [List.append_assoc]
+    rw [hh, List.length_append, List.length_singleton, Nat.add_sub_cancel, List.drop_left]
+    simp [o8, hk]
+  cases ext with
+  | none =>
+    simp only [Option.isSome_none, Bool.false_eq_true, if_false, Nat.add_zero] at hdropE hlen ⊢
+    simp only [extBytes, List.nil_append, List.length_nil, Nat.add_zero] at hdropE hlen
+    by_cases hz : pad = 0
+    · subst hz
+      have : ((0 : UInt8) != 0) = false := by decide
+      simp only [this, Bool.false_eq_true, if_false, Nat.add_zero, Nat.sub_zero]
+      rw [if_pos ⟨trivial, by omega, by intro hh; cases hh⟩, hdropE]
+      have : T = payload := by rw [← hT]; simp
+      rw [this, List.take_of_length_le (by rw [hlen, hTl]; simp)]
+      simp [hpt']
+    · have hne : (pad != 0) = true := by simp [hz]
+      have hl := hpadlast hz
+      have hpos : 0 < pad.toNat := by
+        rcases Nat.eq_zero_or_pos pad.toNat with h0 | h0
+        · exact absurd (UInt8.toNat_inj.mp (by simpa using h0)) hz
+        · exact h0
+      simp only [hne, if_true, hl]
+      rw [if_pos ⟨trivial, by omega, by intro _; omega⟩, hdropE]
+      have : (T.take (bs.length - (12 + 4 * csrcs.length) - pad.toNat)) = payload := by
+        rw [← hT, List.take_append_of_le_length (by omega), List.take_of_length_le (by omega)]
+      rw [this]
+      simp [hpt']
+  | some e =>
+    have hal := w.extAligned e rfl
+    have hwd := w.extWords e rfl
+    simp only [Option.isSome_some, if_true] at hdropE hlen ⊢
+    have hE : extBytes (some e) = be16 e.profile ++ (be16n (e.data.length / 4) ++ e.data) := by simp [extBytes]
+    rw [hE] at hdropE hlen
+    have hElen : (be16 e.profile ++ (be16n (e.data.length / 4) ++ e.data)).length = 4 + e.data.length := by simp; omega
+    rw [hElen] at hlen
+    have fprof : w16 bs (12 + 4 * csrcs.length) = e.profile := by
+      have := w16_shift bs (12 + 4 * csrcs.length) 0
+      simp only [Nat.add_zero] at this
+      rw [this, hdropE, List.append_assoc]; exact w16_be16 _ _
+    have flen : o16 bs (12 + 4 * csrcs.length + 2) = e.data.length / 4 := by
+      rw [o16_shift, hdropE]
+      simp [o16, be16, be16n]; omega
+    have hdropD : bs.drop (12 + 4 * csrcs.length + 4) = e.data ++ T := by
+      rw [← List.drop_drop, hdropE]; simp [be16, be16n]
+    simp only [fprof, flen]
+    have h4 : 4 + 4 * (e.data.length / 4) - 4 = e.data.length := by omega
+    have h5 : 12 + 4 * csrcs.length + (4 + 4 * (e.data.length / 4)) = 12 + 4 * csrcs.length + 4 + e.data.length := by omega
+    rw [h4, h5, hdropD]
+    have hdropT : bs.drop (12 + 4 * csrcs.length + 4 + e.data.length) = T := by
+      rw [← List.drop_drop, hdropD, List.drop_left]
+    by_cases hz : pad = 0
+    · subst hz
+      have : ((0 : UInt8) != 0) = false := by decide
+      simp only [this, Bool.false_eq_true, if_false, Nat.add_zero, Nat.sub_zero]
+      rw [if_pos ⟨trivial, by omega, by intro hh; cases hh⟩, hdropT]
+      have hTp : T = payload := by rw [← hT]; simp
+      have hTl0 : T.length = payload.length := by rw [hTp]
+      rw [List.take_left' rfl, List.take_of_length_le (by omega), hTp]
+      simp [hpt']
+    · have hne : (pad != 0) = true := by simp [hz]
+      have hl := hpadlast hz
+      have hpos : 0 < pad.toNat := by
+        rcases Nat.eq_zero_or_pos pad.toNat with h0 | h0
+        · exact absurd (UInt8.toNat_inj.mp (by simpa using h0)) hz
+        · exact h0
+      simp only [hne, if_true, hl]
+      rw [if_pos ⟨trivial, by omega, by intro _; omega⟩, hdropT, List.take_left' rfl]
+      have : (T.take (bs.length - (12 + 4 * csrcs.length + 4 + e.data.length) - pad.toNat)) = payload := by
+        rw [← hT, List.take_append_of_le_length (by omega), List.take_of_length_le (by omega)]
+      rw [this]
+      simp [hpt']
 
 end RtcModel.C15.Rfc
